@@ -150,7 +150,9 @@ class SSHChannel(log.Logger):
                 for type, data in b:
                     self.writeExtended(type, data)
             finally:
-                self.closing = closing
+                # keep a close requested while the entries were re-written
+                # (e.g. by loseConnection() from stopWriting())
+                self.closing = closing or self.closing
             if self.closing:
                 self.loseConnection()  # try again
 
